@@ -15,7 +15,7 @@ func checkC06(p *Program, r *Report) {
 		"a rejecting default, see C02). C06.magic: the 'compressed' flag is set only where len == 38 and decoded[33] == 0x01. C06.checksum: acceptance lies " +
 		"behind the full 4-byte SHA256d comparison over decoded[:len−4] on each length alternative. C06.pad: the scalar bytes in WIF.String() are padded to " +
 		"32. C06.net: the network byte written by NewWIF / read by DecodeWIF / tested by IsForNet / emitted first by String is one field and one Params " +
-		"field. C06.pub: SerializePubKey picks the compressed serialiser exactly on the flag's true edge. Not decided: round-trip equality; that the public point is that of the key."
+		"field. C06.pub: SerializePubKey picks the compressed serialiser exactly on the flag's true edge. C06.canon: the string is not normalised before Base58 decoding. Not decided: round-trip equality; that the public point is that of the key."
 	r.Trusted = []string{"base58 (in-repo, C07)", "bchec serialisers", "chainhash.DoubleHashB"}
 	fn := p.Func("", "DecodeWIF")
 	if fn == nil {
@@ -137,6 +137,8 @@ func checkC06(p *Program, r *Report) {
 	canonicalInput(p, r, "C06.canon", []*ssa.Function{fn})
 	base58ByteLookup(p, r, "C06.canon")
 	r.Floor("C06.len", 1)
+	r.Floor("C06.canon", 1)
+	r.Floor("C06.pub", 1)
 	r.Floor("C06.magic", 1)
 	r.Floor("C06.checksum", 1)
 	r.Floor("C06.pad", 1)
